@@ -187,6 +187,13 @@ static int sim_mutex_lock(pthread_mutex_t* m, int ek, int64_t deadline)
         event_result(0);
         return 0;
     }
+    // try_lock_for / try_lock_until are allowed to fail spuriously (like try_lock): with the
+    // spurious_trylock fault on, a timed acquisition of a free mutex may give up at once
+    if (deadline >= 0 && o->owner < 0 && fault_enabled(D_SPURIOUS_TRYLOCK) &&
+        fault_decide(D_SPURIOUS_TRYLOCK)) {
+        event_result(ETIMEDOUT + 1000);
+        return ETIMEDOUT;
+    }
     for (;;) {
         if (o->owner < 0) {
             mutex_acquire(t, o);
